@@ -84,7 +84,6 @@ func (e *Executor) Execute(proposals []*proposal.Proposal) error {
 			Type:        prop.Type,
 			MessageID:   prop.MessageID,
 		}
-		transferProposals = append(transferProposals, transferProposal)
 
 		isExecuted, err := e.bridge.IsProposalExecuted(transferProposal)
 		if err != nil {
@@ -94,9 +93,9 @@ func (e *Executor) Execute(proposals []*proposal.Proposal) error {
 			continue
 		}
 
-		proposals = append(proposals, prop)
+		transferProposals = append(transferProposals, transferProposal)
 	}
-	if len(proposals) == 0 {
+	if len(transferProposals) == 0 {
 		return nil
 	}
 
